@@ -124,6 +124,7 @@ type solveOpts struct {
 	cross   bool
 	workDir string
 	keep    bool
+	split   bool // decide leaf by leaf
 }
 
 func solveAll(cx *Ctx, obls []*Obligation, opt solveOpts) {
@@ -152,45 +153,46 @@ func solveAll(cx *Ctx, obls []*Obligation, opt solveOpts) {
 				o.Status, o.Solver, o.TimeS, o.Output, o.Script = r.status, r.solver, r.dur.Seconds(), r.out, file
 				return
 			}
-			first := opt.timeout
+			if !opt.split {
+				r, _ := solve(file, opt.timeout, opt.seed, opt.cross)
+				o.Status, o.Solver, o.TimeS, o.Output, o.Script = r.status, r.solver, r.dur.Seconds(), r.out, file
+				return
+			}
+			// second stage: decide the goal leaf by leaf (the conjunction of the leaves is the goal)
 			var ls []leafGoal
 			leaves(nil, o.Goal.S, &ls)
-			if len(ls) > 1 && first > 6*time.Second {
-				first = 6 * time.Second
+			if len(ls) <= 1 {
+				r, _ := solve(file, opt.timeout, opt.seed, opt.cross)
+				o.Status, o.Solver, o.TimeS, o.Output, o.Script = r.status, r.solver, o.TimeS+r.dur.Seconds(), r.out, file
+				return
 			}
-			r, _ := solve(file, first, opt.seed, opt.cross)
-			o.Status, o.Solver, o.TimeS, o.Output, o.Script = r.status, r.solver, r.dur.Seconds(), r.out, file
-			if (r.status == "timeout" || r.status == "unknown") && len(ls) > 1 {
-				// decide the goal leaf by leaf (the conjunction of the leaves is the goal)
-				all := true
-				total := r.dur.Seconds()
-				for j, l := range ls {
-					g := l.goal
-					for k := len(l.hyps) - 1; k >= 0; k-- {
-						g = "(=> " + l.hyps[k] + " " + g + ")"
-					}
-					o2 := *o
-					o2.Goal = Term{g, SBool}
-					lf := filepath.Join(opt.workDir, fmt.Sprintf("%s-%d-leaf%d.smt2", mangle(o.Name), i, j))
-					os.WriteFile(lf, []byte(cx.script(&o2)), 0o644)
-					lr, _ := solve(lf, opt.timeout, opt.seed, opt.cross)
-					total += lr.dur.Seconds()
-					if os.Getenv("KVC_LEAFTIME") == "1" {
-						fmt.Fprintf(os.Stderr, "leaf %d/%d %s %s %.2fs: %.150s\n", j, len(ls), lr.status, lr.solver, lr.dur.Seconds(), l.goal)
-					}
-					if lr.status != "unsat" {
-						all = false
-						o.Status, o.Solver, o.Output, o.Script = lr.status, lr.solver, fmt.Sprintf("leaf %d of %d: %s\n%s", j, len(ls), l.goal, lr.out), lf
-						break
-					}
+			all := true
+			total := o.TimeS
+			lastSolver := ""
+			for j, l := range ls {
+				g := l.goal
+				for k := len(l.hyps) - 1; k >= 0; k-- {
+					g = "(=> " + l.hyps[k] + " " + g + ")"
 				}
-				o.TimeS = total
-				if all {
-					o.Status, o.Solver = "unsat", "split:"+r.solver
+				o2 := *o
+				o2.Goal = Term{g, SBool}
+				lf := filepath.Join(opt.workDir, fmt.Sprintf("%s-%d-leaf%d.smt2", mangle(o.Name), i, j))
+				os.WriteFile(lf, []byte(cx.script(&o2)), 0o644)
+				lr, _ := solve(lf, opt.timeout, opt.seed, opt.cross)
+				total += lr.dur.Seconds()
+				lastSolver = lr.solver
+				if os.Getenv("KVC_LEAFTIME") == "1" {
+					fmt.Fprintf(os.Stderr, "leaf %d/%d %s %s %.2fs: %.150s\n", j, len(ls), lr.status, lr.solver, lr.dur.Seconds(), l.goal)
+				}
+				if lr.status != "unsat" {
+					all = false
+					o.Status, o.Solver, o.Output, o.Script = lr.status, lr.solver, fmt.Sprintf("leaf %d of %d: %s\n%s", j, len(ls), l.goal, lr.out), lf
+					break
 				}
 			}
-			if len(o.Output) > 2000 {
-				o.Output = o.Output[:2000]
+			o.TimeS = total
+			if all {
+				o.Status, o.Solver = "unsat", "split:"+lastSolver
 			}
 		}(i, o)
 	}
